@@ -64,9 +64,13 @@ def dispatch (ts : List J) : Verdict :=
     | [.atom s] => if s.startsWith "panic:" || s == "timeout" then some s else none
     | _ => none
   match crashed, ins with
-  | some s, .atom op :: _ =>
-    if s.startsWith "panic:the_library_wrote_past" then .fail "caller-storage" s!"{s.drop 6}" else
-    if panicAware.contains op then dispatchOp ins outs else .fail "panic" s!"real code did not return: {s}"
+  | _, .atom op :: rest =>
+    if Graph.ops.contains op && !Graph.wellFormed op rest then .badOp s!"{op}: ill-formed input (outside the entry point's contract)" else
+    match crashed with
+    | none => dispatchOp ins outs
+    | some s =>
+      if s.startsWith "panic:the_library_wrote_past" then .fail "caller-storage" s!"{s.drop 6}" else
+      if panicAware.contains op then dispatchOp ins outs else .fail "panic" s!"real code did not return: {s}"
   | _, _ => dispatchOp ins outs
 
 partial def loop (h : IO.FS.Stream) (out : IO.FS.Stream) : IO Unit := do
